@@ -52,7 +52,7 @@ def extract_trace(R, ob):
     if not os.path.exists(b):
         return {}, "no goto binary kept"
     cmd = core.cbmc_cmd(R.job, b, "minisat" if R.solver not in ("kissat",) else "kissat",
-                        extra=["--trace", "--property", ob["name"]])
+                        extra=["--json-ui", "--trace", "--property", ob["name"]])
     rc, out, err = run(cmd, timeout=min(R.job.timeout, 600), mem_kb=core.MEM_KB)
     vals = {}
     olds = []
@@ -79,9 +79,8 @@ def extract_trace(R, ob):
                         if re.match(r"^tmp_cc(\$\d+)?$", lhs):
                             olds.append(data)
                             continue
-                        if re.match(r"^[A-Za-z_][A-Za-z_0-9]*$", lhs):
-                            if fn == R.job.entry or lhs not in vals:
-                                vals[lhs] = data
+                        if re.match(r"^[A-Za-z_][A-Za-z_0-9]*$", lhs) and not (fn or "").startswith("__CPROVER"):
+                            vals[lhs] = data   # last assignment wins (locals of a loop-step counterexample)
     clean = {}
     for k, v in vals.items():
         v = str(v)
